@@ -101,11 +101,24 @@ impl GenOut {
     }
 }
 
+/// a file whose content starts with this line is written next to the project directory and
+/// linked into it (a `.rs` file that is a symbolic link to a regular file)
+pub const SYMLINK_MARK: &str = "// @ttgv-symlink: this file is a symbolic link to a file outside the project path\n";
+
 pub fn write_project(dir: &Path, files: &[(String, String)]) {
     for (rel, content) in files {
         let p = dir.join(rel);
         if let Some(parent) = p.parent() {
             std::fs::create_dir_all(parent).unwrap();
+        }
+        if content.starts_with(SYMLINK_MARK) {
+            let store = dir.parent().unwrap_or(dir).join(format!("{}-linked", dir.file_name().and_then(|n| n.to_str()).unwrap_or("proj")));
+            std::fs::create_dir_all(&store).unwrap();
+            let target = store.join(rel.replace('/', "__"));
+            std::fs::write(&target, content).unwrap();
+            let _ = std::fs::remove_file(&p);
+            std::os::unix::fs::symlink(&target, &p).unwrap();
+            continue;
         }
         std::fs::write(&p, content).unwrap();
     }
